@@ -3,7 +3,7 @@
 From Coq Require Import String List NArith ZArith Bool.
 From J5V.lib Require Import Text Outcome.
 From J5V.model Require Import BclLexer BclParser BclErrpos BclErrposText BclToFile BclFmt.
-From J5V.proofs Require Import BclPosProofs BclLexerProofs BclParserProofs BclErrposProofs BclGenProofs BclBytesProofs BclParseBytesProofs BclToFileProofs BclFragWfProofs BclDepthProofs BclErrposTextProofs.
+From J5V.proofs Require Import BclPosProofs BclLexerProofs BclParserProofs BclErrposProofs BclGenProofs BclBytesProofs BclParseBytesProofs BclToFileProofs BclFragWfProofs BclDepthProofs BclErrposTextProofs BclPanicSitesProofs.
 Import ListNotations.
 
 (* [valid_pos data p]: p is the (line, column) of a rune of the input or of its end.
@@ -155,6 +155,32 @@ Theorem C11_nesting_bound_in_range :
   N.leb 16 max_value_depth && N.leb max_value_depth 100000 = true /\ Z.of_N max_value_depth = J5V.gen.BclDepthGen.max_value_depth.
 Proof. exact max_value_depth_in_range. Qed.
 Print Assumptions C11_nesting_bound_in_range.
+
+(* the guard of the code (gen/BclDepthGen.pop_value_guard: `ww.depth >= maxValueDepth` as a GoExpr term, read on every
+   run) decides as the model's pop_value does at the depths around the constant, and the model parses exactly
+   maxValueDepth nested brackets and answers one more with the nesting diagnostic at that bracket *)
+Theorem C11_nesting_guard_is_the_code :
+  forallb (fun d => Bool.eqb (too_deep_at (pop_value 4 d (mkW [lb 0; rb 1] None)) 0) (guard_at d))
+    [0; 1; max_value_depth - 2; max_value_depth - 1; max_value_depth; max_value_depth + 1; max_value_depth + 2; 2 * max_value_depth]%N = true /\
+  guard_at (max_value_depth - 1) = false /\ guard_at max_value_depth = true.
+Proof. exact pop_value_guard_agrees. Qed.
+Print Assumptions C11_nesting_guard_is_the_code.
+
+Theorem C11_model_at_the_nesting_bound :
+  let n := N.to_nat max_value_depth in
+  parse_summary true (nest_src n) = Some (true, []) /\
+  parse_summary true (nest_src (S n)) =
+    Some (false, [((0, 4 + Z.of_N max_value_depth), (0, 4 + Z.of_N max_value_depth))%Z]).
+Proof. exact max_value_depth_boundary. Qed.
+Print Assumptions C11_model_at_the_nesting_bound.
+
+(* every expression of the nine anchored files that can panic by itself (index, slice, single-value type assertion,
+   integer division, explicit panic: 39 sites, enumerated by the translator on every run) is in the reviewed list,
+   where each has its cover: an explicit Panic arm of the model excluded by a theorem above (8 sites), the enclosing
+   guard, a map read, a loop index, package initialisation, or a function outside the ParseFile / Fmt / HumanString paths *)
+Theorem C11_panic_capable_sites_reviewed : map fst reviewed_sites = J5V.gen.BclIndexGen.panic_capable_sites.
+Proof. exact panic_capable_sites_reviewed. Qed.
+Print Assumptions C11_panic_capable_sites_reviewed.
 
 (* the byte-level entry point is the rune-level one after []rune(input) *)
 Theorem C11_parse_file_is_parse_runes : forall input ff,
